@@ -70,6 +70,16 @@ def observe(nodes, lab, params):
         out["resolve"].append(g if isinstance(g, dict) else [lab(x) for x in g])
         g = safe(lambda: r.get(nodes[start], path))
         out["resolve"].append(g if isinstance(g, dict) or g is None else lab(g))
+    # symbolic links TO these nodes: reading through a link must neither depend on the target's truth value, length or
+    # equality nor invoke them
+    out["links"] = []
+    for n in nodes[:3]:
+        link = safe(lambda: anytree.SymlinkNode(n))
+        if isinstance(link, dict):
+            out["links"].append(link)
+            continue
+        out["links"].append([safe(lambda: getattr(link, "name", "<no name>")), safe(lambda: lab(link.target)),
+                             safe(lambda: [getattr(r.node, "name", None) for r in RenderTree(link)])])
     out["export"] = []
     for i in params.get("export_roots", []):
         if i < len(nodes):
